@@ -98,7 +98,7 @@ func runC17(c *Ctx, idx int) {
 		return map[string]any{"html": pg.HTML, "page_url": pg.PageURL, "spec": pg.Desc, "algorithm": int(algo)}
 	}
 	c.SetInput(func() any { return wit() })
-	cr := c.applyReader(pg.HTML, &distiller.Options{OriginalURL: page, PaginationAlgo: algo})
+	cr := c.applyVariant(pg.HTML, &distiller.Options{OriginalURL: page, PaginationAlgo: algo}, idx/5)
 	if !c.usable(cr) {
 		return
 	}
